@@ -288,3 +288,40 @@ s("C11", "hist-unnormalised", PCF, '            "density": list(density[0] / np.
 s("C11", "support-reference-only", PCF, "                        self.lower[i] = min(\n                            self._reference_pca_projection.iloc[:, i].min(),\n                            self._test_pca_projection.iloc[:, i].min(),\n                        )", "                        self.lower[i] = min(\n                            self._reference_pca_projection.iloc[:, i].min(),\n                            self._reference_pca_projection.iloc[:, i].min(),\n                        )", "AGREE-support")
 b(["C11"], "intersection-rewrite", PCF, "        divergence = 1 - intersection\n", "        divergence = -intersection + 1\n")
 b(["C11", "C01"], "schedule-flip", PCF, "                (self.total_samples - 1) != 0\n", "                0 != (self.total_samples - 1)\n")
+
+# ---------------------------------------------------------------- C12
+EF = EN + "ensemble.py"
+s("C12", "x-rebound-in-loop", EF, "            X_selected = self.column_selectors[det_key](X)\n            self.detectors[det_key].update(X=X_selected, y_true=y_true, y_pred=y_pred)", "            X = self.column_selectors[det_key](X)\n            self.detectors[det_key].update(X=X, y_true=y_true, y_pred=y_pred)", "FWD")
+s("C12", "election-before-loop", EF, "        for det_key in self.detectors:\n            # XXX - Cannot re-define X = constrain(), else external reference is modified\n            #       Need to see why this is happening and where to put e.g. a copy() stmt.\n            X_selected = self.column_selectors[det_key](X)\n            self.detectors[det_key].update(X=X_selected, y_true=y_true, y_pred=y_pred)\n\n        det_list = list(self.detectors.values())\n        self.drift_state = self.election(det_list)", "        det_list = list(self.detectors.values())\n        self.drift_state = self.election(det_list)\n        for det_key in self.detectors:\n            X_selected = self.column_selectors[det_key](X)\n            self.detectors[det_key].update(X=X_selected, y_true=y_true, y_pred=y_pred)", "ORD")
+s("C12", "member-gets-whole-x", EF, "self.detectors[det_key].update(X=X_selected, y_true=y_true, y_pred=y_pred)", "self.detectors[det_key].update(X=X, y_true=y_true, y_pred=y_pred)", "FWD")
+s("C12", "member-loses-labels", EF, "self.detectors[det_key].update(X=X_selected, y_true=y_true, y_pred=y_pred)", "self.detectors[det_key].update(X=X_selected, y_true=None, y_pred=y_pred)", "FWD")
+s("C12", "reset-breaks", EF, "        for det_key in self.detectors:\n            self.detectors[det_key].reset()", "        for det_key in self.detectors:\n            self.detectors[det_key].reset()\n            break", "MC")
+s("C12", "drift-states-own", EF, "            detector_id: detector.drift_state\n", "            detector_id: self.drift_state\n", "FRM")
+s("C12", "streaming-no-count", EF, "        Ensemble.update(self, X=X, y_true=y_true, y_pred=y_pred)\n        StreamingDetector.update(self, X=X, y_true=y_true, y_pred=y_pred)", "        Ensemble.update(self, X=X, y_true=y_true, y_pred=y_pred)", "MC")
+s("C12", "ensemble-auto-reset", EF, "        Ensemble.update(self, X=X, y_true=y_true, y_pred=y_pred)\n        StreamingDetector.update(", "        if self.drift_state == \"drift\":\n            self.reset()\n        Ensemble.update(self, X=X, y_true=y_true, y_pred=y_pred)\n        StreamingDetector.update(", "FOREIGN")
+s("C12", "election-skipped-when-quiet", EF, "        det_list = list(self.detectors.values())\n        self.drift_state = self.election(det_list)", "        det_list = list(self.detectors.values())\n        if any(d.drift_state is not None for d in det_list):\n            self.drift_state = self.election(det_list)\n        else:\n            self.drift_state = None", "MC")
+s("C12", "skip-drifted-members", EF, "            X_selected = self.column_selectors[det_key](X)\n            self.detectors[det_key].update(X=X_selected, y_true=y_true, y_pred=y_pred)\n\n        det_list", "            X_selected = self.column_selectors[det_key](X)\n            if self.detectors[det_key].drift_state != \"drift\":\n                self.detectors[det_key].update(X=X_selected, y_true=y_true, y_pred=y_pred)\n\n        det_list", "MC")
+s("C12", "setref-wrong-selector", EF, "            X_selected = self.column_selectors[det_key](X)\n            self.detectors[det_key].set_reference(", "            X_selected = self.column_selectors[list(self.detectors)[0]](X)\n            self.detectors[det_key].set_reference(", "FWD")
+s("C12", "member-state-cleared", EF, "        det_list = list(self.detectors.values())\n        self.drift_state = self.election(det_list)", "        det_list = list(self.detectors.values())\n        self.drift_state = self.election(det_list)\n        for d in det_list:\n            d._drift_state = None", "FOREIGN")
+s("C12", "election-sorted", EF, "        det_list = list(self.detectors.values())", "        det_list = sorted(self.detectors.values(), key=id)", "FRM")
+b(["C12"], "loop-items", EF, "        for det_key in self.detectors:\n            self.detectors[det_key].reset()", "        for det_key in self.detectors:\n            member = self.detectors[det_key]\n            member.reset()")
+
+# ---------------------------------------------------------------- C13
+ELF = EN + "election.py"
+s("C13", "majority-ge", ELF, "        if num_drift > simple_majority_threshold:", "        if num_drift >= simple_majority_threshold:", "TAB")
+s("C13", "minimum-gt", ELF, "            if num_approvals >= self.approvals_needed:\n                return \"drift\"\n        return None", "            if num_approvals > self.approvals_needed:\n                return \"drift\"\n        return None", "TAB")
+s("C13", "ordered-or", ELF, "                    num_approvals >= self.approvals_needed\n                    and num_confirmations >= self.confirmations_needed", "                    num_approvals >= self.approvals_needed\n                    or num_confirmations >= self.confirmations_needed", "TAB")
+s("C13", "majority-returns-warning", ELF, "        if num_drift > simple_majority_threshold:\n            return \"drift\"\n        else:\n            return None", "        if num_drift > simple_majority_threshold:\n            return \"drift\"\n        elif num_drift > 0:\n            return \"warning\"\n        else:\n            return None", ["RET", "ANALYSIS-ERROR"])
+s("C13", "majority-votes-not-none", ELF, '        alarms = [d for d in detectors if d.drift_state == "drift"]', '        alarms = [d for d in detectors if d.drift_state is not None]', "FRM")
+s("C13", "confirmed-expiry-ge", ELF, "            if count > self.wait_time:", "            if count >= self.wait_time:", "TAB")
+s("C13", "confirmed-warning-counts", ELF, "            elif state == \"warning\":\n                num_warning += 1\n", "            elif state == \"warning\":\n                num_warning += 1\n                self.wait_period_counters[i] += 1\n", "TAB")
+s("C13", "confirmed-warning-verdict", ELF, "        elif num_warning + num_drift >= self.sensitivity:", "        elif num_warning >= self.sensitivity:", "TAB")
+s2("C13", "majority-half-rounded-up", ELF, [("        simple_majority_threshold = len(detectors) // 2", "        simple_majority_threshold = (len(detectors) + 1) // 2"), ("        if num_drift > simple_majority_threshold:", "        if num_drift >= simple_majority_threshold:")], "TAB")
+s("C13", "confirmed-waiting-first", ELF, "            if state == \"drift\" and self.wait_period_counters[i] == 0:\n                num_drift += 1\n                self.wait_period_counters[i] += 1\n            elif state == \"warning\":\n                num_warning += 1\n            elif self.wait_period_counters[i] != 0:\n                num_drift += 1\n                self.wait_period_counters[i] += 1", "            if state == \"drift\" or self.wait_period_counters[i] != 0:\n                num_drift += 1\n                self.wait_period_counters[i] += 1\n            elif state == \"warning\":\n                num_warning += 1", "TAB")
+s("C13", "minimum-counts-warning", ELF, '        for d in detectors:\n            if d.drift_state == "drift":\n                num_approvals += 1\n            if num_approvals', '        for d in detectors:\n            if d.drift_state in ("drift", "warning"):\n                num_approvals += 1\n            if num_approvals', "FRM")
+s("C13", "ordered-approvals-le", ELF, "                if num_approvals < self.approvals_needed:", "                if num_approvals <= self.approvals_needed:", "TAB")
+s("C13", "confirmed-drift-verdict-gt", ELF, "        if num_drift >= self.sensitivity:", "        if num_drift > self.sensitivity:", "TAB")
+s("C13", "confirmed-expiry-early-return", ELF, "        for i, count in enumerate(self.wait_period_counters):\n            if count > self.wait_time:", "        if ret is None:\n            return ret\n        for i, count in enumerate(self.wait_period_counters):\n            if count > self.wait_time:", ["ORD", "MC"])
+b(["C13"], "majority-doubled", ELF, "        if num_drift > simple_majority_threshold:", "        if 2 * num_drift > len(detectors):")
+b(["C13"], "minimum-flip", ELF, "            if num_approvals >= self.approvals_needed:\n                return \"drift\"\n        return None", "            if self.approvals_needed <= num_approvals:\n                return \"drift\"\n        return None")
+b(["C13"], "confirmed-verdict-reordered-sum", ELF, "        elif num_warning + num_drift >= self.sensitivity:", "        elif num_drift + num_warning >= self.sensitivity:")
